@@ -134,6 +134,7 @@ def catalogue():
         Op("chunk", a.split, lambda q, o: torch.chunk(q, 2, 0), ["pt8"], "move"),
         Op("transpose", a.transpose, lambda q, o: q.transpose(0, 1), ["pt8", "ptf8", "ax0", "axm1", "pt8b"], "move"),
         Op("t", a.t, lambda q, o: q.t(), D2, "move"),
+        Op("t-1d", a.t, lambda q, o: q.t(), ["pt8v"], "move"),
         Op("t-t", a.t, lambda q, o: q.t().t(), ["ax0", "axm1", "pt8"], "move"),
         Op("view", a.view, lambda q, o: q.view(-1), ["pt8", "ptf8", "ax0"], "move"),
         Op("reshape", a.view, lambda q, o: q.reshape(q.shape[-1], -1), ["pt8", "ax0", "axm1"], "move"),
